@@ -1,6 +1,7 @@
 package main
 
 import (
+	"strings"
 	"fmt"
 	"go/token"
 	"go/types"
@@ -370,8 +371,36 @@ func (m *Machine) strEq(a, b Str) *Term {
 		ok2 = true
 	}
 	if ok2 && at.kind == KVar {
-		if m.freshAtoms[at] && m.eng.vocab[cb] {
+		if m.freshAtoms[at] && (m.eng.vocab[cb] || m.eng.vocab["$"+cb]) {
 			return tFalse
+		}
+	}
+	if ok2 && at.kind == KApp && at.op == "str.++" {
+		// constant == prefix ++ freshAtom ++ suffix: a user field name never completes a
+		// vocabulary word (class G assumption)
+		ps := at.args
+		lo, hi := 0, len(ps)
+		rest := cb
+		okStrip := true
+		for lo < hi && ps[lo].kind == KConst {
+			if !strings.HasPrefix(rest, ps[lo].s) {
+				return tFalse
+			}
+			rest = rest[len(ps[lo].s):]
+			lo++
+		}
+		for hi > lo && ps[hi-1].kind == KConst {
+			if !strings.HasSuffix(rest, ps[hi-1].s) {
+				return tFalse
+			}
+			rest = rest[:len(rest)-len(ps[hi-1].s)]
+			hi--
+		}
+		if okStrip && hi-lo == 1 && ps[lo].kind == KVar && m.freshAtoms[ps[lo]] {
+			if m.eng.vocab[cb] || m.eng.vocab[rest] || m.eng.vocab["$"+rest] {
+				return tFalse
+			}
+			return TEq(ps[lo], TStr(rest))
 		}
 	}
 	return TEq(at, bt)
@@ -916,6 +945,7 @@ func (m *Machine) callBuiltin(caller *frame, pos token.Pos, fn *ssa.Builtin, arg
 			if x == nil {
 				return Num{}
 			}
+			m.flushPending(x)
 			return Num{c: int64(x.n)}
 		case Array:
 			return Num{c: int64(len(x))}
@@ -970,6 +1000,7 @@ func (m *Machine) callBuiltin(caller *frame, pos token.Pos, fn *ssa.Builtin, arg
 		switch x := args[0].(type) {
 		case *MapV:
 			if x != nil {
+				x.pendingK, x.pendingV = nil, nil
 				for _, e := range x.entries {
 					e.deleted = true
 				}
